@@ -9,6 +9,7 @@ import (
 	"reflect"
 	"slices"
 	"sort"
+	"strconv"
 	"strings"
 	"verif/internal/envrun"
 
@@ -30,6 +31,19 @@ func keysAt(b []byte, path []string) ([]string, error) {
 		tok, err := dec.Token()
 		if err != nil {
 			return nil, err
+		}
+		if tok == json.Delim('[') && len(path) > 0 {
+			idx, err := strconv.Atoi(path[0])
+			if err != nil {
+				return nil, fmt.Errorf("array where path element %q is expected", path[0])
+			}
+			for i := 0; i < idx; i++ {
+				var skip json.RawMessage
+				if err := dec.Decode(&skip); err != nil {
+					return nil, err
+				}
+			}
+			return walk(path[1:])
 		}
 		if tok != json.Delim('{') {
 			return nil, fmt.Errorf("not an object at path")
@@ -159,10 +173,14 @@ func cases() []cse {
 			out = append(out, cse{props, []string{p}, false})
 		}
 	}
+	out = append(out, cse{nil, []string{"a", "a"}, true}, cse{[]string{}, []string{"a", "a"}, true}, cse{nil, []string{"a", "b", "a"}, true}, cse{nil, []string{"a", "b"}, false}, cse{[]string{}, []string{"zz"}, false})
 	return out
 }
 
 func mkProps(ps []string) map[string]*jsonschema.Schema {
+	if ps == nil {
+		return nil
+	}
 	m := map[string]*jsonschema.Schema{}
 	for i, p := range ps {
 		m[p] = &jsonschema.Schema{Type: []string{"integer", "string", "boolean", "null"}[i%4]}
@@ -172,7 +190,7 @@ func mkProps(ps []string) map[string]*jsonschema.Schema {
 
 func Run(r *ev.Run) {
 	cs := cases()
-	r.Rule("property name sets of size<=4 over {a,b,c,d,é,\"\"} x every PropertyOrder that is a permutation of a subset, such a list with names absent from properties inserted at every position, or a list with one duplicate (present or absent name); plus every name set of size<=3 over 13 names whose JSON encoding sorts differently from the name (space, !, <, &, control characters, U+2028, quote, backslash, case) with no / empty / single-name orders; each at the root and nested under properties / items / $defs / allOf with an own order on both levels. Oracle R5: key order read from the token stream = listed names that exist, in list order, then the rest ascending; a duplicate anywhere in the tree makes Marshal fail. Determinism: 20 marshals of every value (and of every schema For returns for the G-type catalogue) give identical bytes; the caller's PropertyOrder slice is unchanged afterwards. Non-trivial = every case (distinct by construction)")
+	r.Rule("property name sets of size<=4 over {a,b,c,d,é,\"\"} x every PropertyOrder that is a permutation of a subset, such a list with names absent from properties inserted at every position, or a list with one duplicate (present or absent name); plus every name set of size<=3 over 13 names whose JSON encoding sorts differently from the name (space, !, <, &, control characters, U+2028, quote, backslash, case) with no / empty / single-name orders; each at the root, nested under properties / items / $defs / allOf / anyOf / oneOf / not / array-form items / dependencies (schema form beside a string form) / patternProperties / dependentSchemas+then with an own order on both levels, and marshalled as a value inside map[string]Schema; duplicates also with nil and empty Properties. Oracle R5: key order read from the token stream = listed names that exist, in list order, then the rest ascending; a duplicate anywhere in the tree makes Marshal fail. Determinism: 20 marshals of every value (and of every schema For returns for the G-type catalogue) give identical bytes; the caller's PropertyOrder slice is unchanged afterwards. Non-trivial = every case (distinct by construction)")
 	r.Assume("R5 is the documented rule of Schema.PropertyOrder", "map-iteration orders are explored in the instrumented build (C19 env part); here repetition only confirms")
 	r.Set("cases", len(cs))
 	type nest struct {
@@ -190,6 +208,31 @@ func Run(r *ev.Run) {
 		{"$defs", func(in *jsonschema.Schema) (*jsonschema.Schema, []string) {
 			return &jsonschema.Schema{Defs: map[string]*jsonschema.Schema{"d": in}}, []string{"$defs", "d", "properties"}
 		}},
+		{"allOf[0]", func(in *jsonschema.Schema) (*jsonschema.Schema, []string) {
+			return &jsonschema.Schema{AllOf: []*jsonschema.Schema{in, {}}}, []string{"allOf", "0", "properties"}
+		}},
+		{"anyOf[1]", func(in *jsonschema.Schema) (*jsonschema.Schema, []string) {
+			return &jsonschema.Schema{AnyOf: []*jsonschema.Schema{{}, in}}, []string{"anyOf", "1", "properties"}
+		}},
+		{"oneOf[0]", func(in *jsonschema.Schema) (*jsonschema.Schema, []string) {
+			return &jsonschema.Schema{OneOf: []*jsonschema.Schema{in}}, []string{"oneOf", "0", "properties"}
+		}},
+		{"not", func(in *jsonschema.Schema) (*jsonschema.Schema, []string) {
+			return &jsonschema.Schema{Not: in}, []string{"not", "properties"}
+		}},
+		{"items[1] (array form)", func(in *jsonschema.Schema) (*jsonschema.Schema, []string) {
+			return &jsonschema.Schema{ItemsArray: []*jsonschema.Schema{{}, in}}, []string{"items", "1", "properties"}
+		}},
+		{"dependencies.k (schema form, next to a string form)", func(in *jsonschema.Schema) (*jsonschema.Schema, []string) {
+			return &jsonschema.Schema{DependencySchemas: map[string]*jsonschema.Schema{"k": in}, DependencyStrings: map[string][]string{"j": {"a"}}}, []string{"dependencies", "k", "properties"}
+		}},
+		{"patternProperties", func(in *jsonschema.Schema) (*jsonschema.Schema, []string) {
+			return &jsonschema.Schema{PatternProperties: map[string]*jsonschema.Schema{"^p": in}}, []string{"patternProperties", "^p", "properties"}
+		}},
+		{"dependentSchemas + if/then", func(in *jsonschema.Schema) (*jsonschema.Schema, []string) {
+			return &jsonschema.Schema{DependentSchemas: map[string]*jsonschema.Schema{"k": {If: &jsonschema.Schema{}, Then: in}}}, []string{"dependentSchemas", "k", "then", "properties"}
+		}},
+		{"value in map[string]Schema", nil},
 	}
 	par.For(len(cs)*len(nests), r.Expired, func(idx int, j par.Journal) {
 		c, n := cs[idx/len(nests)], nests[idx%len(nests)]
@@ -204,10 +247,19 @@ func Run(r *ev.Run) {
 		defer j.End()
 		inner := &jsonschema.Schema{Type: "object", Properties: mkProps(c.props), PropertyOrder: c.order}
 		orderCopy := slices.Clone(c.order)
-		s, path := n.wrap(inner)
+		var s *jsonschema.Schema
+		var path []string
 		var b []byte
 		var err error
-		if p := par.Call(func() { b, err = json.Marshal(s) }); p != "" {
+		marshal := func() ([]byte, error) { return json.Marshal(s) }
+		if n.wrap == nil {
+			// marshalled as a value (not through a pointer), inside a map
+			s, path = inner, []string{"v", "properties"}
+			marshal = func() ([]byte, error) { return json.Marshal(map[string]jsonschema.Schema{"v": *inner}) }
+		} else {
+			s, path = n.wrap(inner)
+		}
+		if p := par.Call(func() { b, err = marshal() }); p != "" {
 			r.Fail(key, map[string]any{"class": "panic", "panic": p})
 			return
 		}
@@ -229,11 +281,14 @@ func Run(r *ev.Run) {
 		}
 		want := expected(set, c.order)
 		got, kerr := keysAt(b, path)
+		if len(c.props) == 0 {
+			got, kerr = nil, nil // no "properties" member to read
+		}
 		if kerr != nil || !slices.Equal(got, want) {
 			r.Fail(key, map[string]any{"class": "property order", "want": want, "got": got, "output": string(b), "error": fmt.Sprint(kerr)})
 		}
 		for rep := 0; rep < 20; rep++ {
-			b2, err2 := json.Marshal(s)
+			b2, err2 := marshal()
 			if err2 != nil || !bytes.Equal(b, b2) {
 				r.Fail(key, map[string]any{"class": "repeated marshal differs", "first": string(b), "later": string(b2), "error": fmt.Sprint(err2)})
 				break
